@@ -1,6 +1,5 @@
 /* C12 / obligations 3 and 4: ROUND TRIP and TRUNCATION/EXTENSION, streaming interface.
-   Input: H_L bytes exactly (-DH_L=n, one obligation per length), every byte symbolic (-DH_ALPHA=0) or drawn from
-   H_ALPHA symbolic byte values a[0..H_ALPHA) (small alphabet: repeats are what creates back-references).
+   Input: H_L bytes exactly (-DH_L=n, one obligation per length), every byte symbolic.
    reduce_encode_start / reduce_encode_put x H_L / reduce_encode_finish write into h_stream[] through the harness
    writer; reduce_decode_start / reduce_decode_get until -1 / reduce_decode_finish read it back through the
    harness reader.  The decoder starts from ARBITRARY ind2pos[]/buf[] contents (nd()).
@@ -10,12 +9,12 @@
    How the decoder is driven: reduce_decode_get is called once per delivered byte, as a client does.  After a
    refill the number of buffered bytes buf_bound is a symbolic value in 1..BUF_LEN; the harness splits on it
    (if (buf_bound == k) { buf_bound = k; ...k-1 calls... }) - an identity store that makes the value a constant
-   for symbolic execution, so that the k-1 buffered calls are folded instead of each re-encoding the refill loop. */
+   for symbolic execution, so that the k-1 buffered calls are folded instead of each re-encoding the refill loop.
+   Loop bound of the refill loop (props/C12.py, checked by the unwinding assertion): a chunk of m bytes has at most
+   1 + (m-8)/4 + 1 elements (the first back-reference needs 4 bytes before it and is >= 4 long, every further
+   element but the last contains a back-reference of >= 4 bytes), plus one per MAX_SYMB_LEN flush, plus the 0 tag. */
 #ifndef H_L
 #define H_L 8
-#endif
-#ifndef H_ALPHA
-#define H_ALPHA 0
 #endif
 #ifndef H_CUT
 #define H_CUT 0
@@ -51,13 +50,7 @@ static uint8_t h_in[H_L + 1], h_out[H_L + 1];
 
 void harness (void) {
   H_ASSERT (H_BUF_OFF + H_BUF == sizeof (struct reduce_data), "buf[] is the tail of struct reduce_data");
-#if H_ALPHA > 0
-  uint8_t a[H_ALPHA];
-  for (int i = 0; i < H_ALPHA; i++) a[i] = (uint8_t) nd ();
-  for (int i = 0; i < H_L; i++) h_in[i] = a[nd_below (H_ALPHA)];
-#else
   for (int i = 0; i < H_L; i++) h_in[i] = (uint8_t) nd ();
-#endif
   /* ---- encode ---- */
   struct reduce_data *e = reduce_encode_start (&h_alloc, h_writer, NULL);
   for (int i = 0; i < H_L; i++) reduce_encode_put (e, h_in[i]);
